@@ -8,6 +8,7 @@
    POST /kick and GET /online".  No bound on lengths, ids or byte counts. *)
 From Hy Require Import lib.Lin model.C15_Stats proof.C15_Stats model.C15_Sites proof.C15_Sites.
 From Hy Require Import model.C15_FromC01 proof.C15_FromC01.
+From Hy Require Import model.C15_Pending proof.C15_Pending.
 From Coq Require Import ZArith Permutation.
 Local Open Scope N_scope.
 
@@ -344,3 +345,53 @@ Theorem C15_online_listing_after_C01_run_any_numbering : forall enc cfg masq act
   step st OGetOnline = (st, ROnline (online st)).
 Proof. exact listing_from_c01_run. Qed.
 Print Assumptions C15_online_listing_after_C01_run_any_numbering.
+
+(* ---------------- request goroutines and the end of a connection (model/C15_Pending.v) ---------------- *)
+
+(* "Not stale after a disconnect" - the clause about what handleClient's continuation may depend on.  A connection's
+   proxy requests run in goroutines of their own (hijacked streams) that may sit in an outbound dial for any time.
+   For every state: once the connection is closed and its auth handlers are done, handleClient's continuation is
+   enabled, reports the user offline and unlists the connection - whatever number of request goroutines (pend p) of
+   that connection is still in flight. *)
+Theorem C15_offline_does_not_wait_for_request_goroutines : forall secret p slot c,
+  nth_error (conns (pw p)) slot = Some c ->
+  c_open c = false -> c_busy c = false -> c_exited c = false -> c_flag c = true ->
+  pstep false secret p (PW (EHandlerReturn slot)) =
+    (mkPW (mkWorld (fst (do_online (logger (pw p)) (c_id c) false)) (upd slot unlist_conn (conns (pw p)))) (pend p), WUnit).
+Proof. exact offline_enabled. Qed.
+Print Assumptions C15_offline_does_not_wait_for_request_goroutines.
+
+(* Request goroutines starting and returning are invisible to the world of model/C15_Sites.v: every run with them is the
+   run of its C15_Sites events, so every theorem above about wrun holds of it. *)
+Theorem C15_request_goroutines_do_not_touch_the_census : forall secret l p,
+  pw (prun false secret p l) = wrun secret (pw p) (wevents l).
+Proof. exact prun_projects. Qed.
+Print Assumptions C15_request_goroutines_do_not_touch_the_census.
+
+(* ... in particular the census: the listing shows, per user, the announced connections whose handleClient has not yet
+   reported offline - exactly the live ones once the handlers of closed connections have returned - with any number of
+   requests pending on any connection, dead or alive. *)
+Theorem C15_census_with_pending_requests : forall secret l i,
+  (Z.of_nat (List.length (wevents l)) < P63)%Z ->
+  let p := prun false secret init_pworld l in
+  let c := nlisted i (conns (pw p)) in
+  get i (online (logger (pw p))) = (if (c =? 0)%Z then None else Some c) /\
+  (nopen i (conns (pw p)) <= c)%Z /\
+  (quiescent (conns (pw p)) -> c = nopen i (conns (pw p))).
+Proof. exact census_with_requests. Qed.
+Print Assumptions C15_census_with_pending_requests.
+
+(* The clause is needed: in the variant where handleClient waits for the request goroutines (a WaitGroup over
+   handleTCPRequest) a user whose only connection is gone stays listed, with count 1 and no live connection, for as long
+   as one dial hangs; handleClient's continuation is refused however often it is tried; the code, on the same run, has
+   dropped the user while the request is still in its dial. *)
+Theorem C15_waiting_for_request_goroutines_refuted : forall secret,
+  let p := prun true secret init_pworld (stale_run 0) in
+  nopen 0 (conns (pw p)) = 0%Z /\
+  get 0 (online (logger (pw p))) = Some 1%Z /\
+  (forall n, prun true secret p (repeat (PW (EHandlerReturn 0)) n) = p) /\
+  get 0 (online (logger (pw (prun true secret p [PReqEnd 0 1; PW (EHandlerReturn 0)])))) = None /\
+  let q := prun false secret init_pworld (stale_run 0) in
+  get 0 (online (logger (pw q))) = None /\ pend_at 0 (pend q) = 1.
+Proof. exact waits_refuted. Qed.
+Print Assumptions C15_waiting_for_request_goroutines_refuted.
